@@ -7,15 +7,21 @@ use crate::interp::{Attempt, Cfg, Interp};
 use crate::ir::Kind;
 use serde_json::{json, Value};
 
-pub const RULE: &str = "cases: every rule of every corpus grammar x rejected inputs (near-miss mutations make rejection after progress frequent) for try_parse / try_parse_partial / try_check (Display of the pest::error::Error) and try_parse_with / try_parse_partial_with with the harness' own Tracker (finish(): position and attempt lists). Oracle: the reference interpreter's attempt trace of the same parse on the optimised AST (rule, position, outcome), extended by the full-parse wrapper's trailing skip and EOI attempt: the reported position p must lie in the input range on a character boundary and not before the end of the prefix the rule matched; every rule listed as expected must have a failed attempt at p in the trace, every rule listed as unexpected a successful one; 'empty stack' / 'slice out of bound' entries must correspond to such events at p; Display must not panic, location and line/column must agree with p; a second run must give the identical report. Non-trivial = the report lists >=1 rule and p > start, or a predicate lies on the failing path, or the failure is the end-of-input check; distinct by (grammar, rule, input, entry).";
+pub const RULE: &str = "cases: every rule of every corpus grammar x rejected inputs (near-miss mutations make rejection after progress frequent; for the grammars compiled with all input forms a quarter of the cases are Span / Position sub-inputs, whose reports must lie in the given range) for try_parse / try_parse_partial / try_check (Display of the pest::error::Error) and try_parse_with / try_parse_partial_with with the harness' own Tracker (finish(): position and attempt lists). Oracle: the reference interpreter's attempt trace of the same parse on the optimised AST (rule, position, outcome), extended by the full-parse wrapper's trailing skip and EOI attempt: the reported position p must lie in the input range on a character boundary and not before the end of the prefix the rule matched; every rule listed as expected must have a failed attempt at p in the trace, every rule listed as unexpected a successful one; 'empty stack' / 'slice out of bound' entries must correspond to such events at p; Display must not panic, location and line/column must agree with p; a second run must give the identical report. Non-trivial = the report lists >=1 rule and p > start, or a predicate lies on the failing path, or the failure is the end-of-input check; distinct by (grammar, rule, input, entry).";
 
 fn trace_for(gi: &GInfo, name: &str, kind: Kind, input: &str, full: bool) -> Option<(Option<usize>, Vec<Attempt>, crate::interp::Events)> {
     trace_with(gi, name, kind, input, full, false)
 }
 
 fn trace_with(gi: &GInfo, name: &str, kind: Kind, input: &str, full: bool, k1: bool) -> Option<(Option<usize>, Vec<Attempt>, crate::interp::Events)> {
+    trace_in(gi, name, kind, input, 0, input.len(), full, k1)
+}
+
+#[allow(clippy::too_many_arguments)]
+fn trace_in(gi: &GInfo, name: &str, kind: Kind, host: &str, lo: usize, hi: usize, full: bool, k1: bool) -> Option<(Option<usize>, Vec<Attempt>, crate::interp::Events)> {
     let cfg = Cfg { optimised: true, trace: true, k1, ..Cfg::default() };
-    let r = Interp::new(gi.ir, cfg.clone(), input, 0, input.len()).run_rule(name);
+    let input = host;
+    let r = Interp::new(gi.ir, cfg.clone(), input, lo, hi).run_rule(name);
     if !r.defined() {
         return None;
     }
@@ -27,12 +33,12 @@ fn trace_with(gi: &GInfo, name: &str, kind: Kind, input: &str, full: bool, k1: b
             let p = if atomic {
                 e
             } else {
-                match Interp::new(gi.ir, cfg, input, 0, input.len()).run_skip(e).verdict() {
+                match Interp::new(gi.ir, cfg, input, lo, hi).run_skip(e).verdict() {
                     Some(Some(p)) => p,
                     _ => return None,
                 }
             };
-            attempts.push(Attempt { rule: "EOI".into(), pos: p, ok: p == input.len(), negated: false });
+            attempts.push(Attempt { rule: "EOI".into(), pos: p, ok: p == hi, negated: false });
         }
     }
     Some((v, attempts, r.events))
@@ -203,9 +209,85 @@ pub fn check_input(ctx: &mut Ctx, gi: &GInfo, rule: usize, input: &str) -> CaseR
     CaseResult::Ok
 }
 
+/// Sub-input forms: the reported location must lie in the given range and the listed rules
+/// must have been attempted there (the same trace oracle, run on the range).
+pub fn check_sub(ctx: &mut Ctx, gi: &GInfo, rule: usize, host: &str, form: Form) -> CaseResult {
+    let (name, kind) = gi.rules[rule].clone();
+    let (lo, hi) = form.bounds(host.len());
+    if !well_founded(ctx, gi, rule, host, lo, hi) {
+        return CaseResult::Ok;
+    }
+    for (entry, plain_entry, full) in [(Entry::ParseFullWith, Entry::ParseFull, true), (Entry::ParsePartialWith, Entry::ParsePartial, false)] {
+        ctx.ev.eval();
+        let t = gi.g.typed(Req { rule, entry, form, deep: false }, host);
+        if t.panicked.is_some() || t.ok {
+            continue;
+        }
+        let (rv, mut trace, _) = match trace_in(gi, &name, kind, host, lo, hi, full, false) {
+            Some(x) => x,
+            None => return CaseResult::Ok,
+        };
+        if ctx.open("K1") && (gi.ir.has_ws() || gi.ir.has_comment()) {
+            if let Some((rv1, t1, _)) = trace_in(gi, &name, kind, host, lo, hi, full, true) {
+                if rv1 == rv {
+                    trace.extend(t1);
+                }
+            }
+        }
+        let tp = gi.g.typed(Req { rule, entry: Entry::ParsePartial, form, deep: false }, host);
+        if (if tp.ok { tp.end } else { None }) != rv {
+            continue;
+        }
+        let tr = t.tracker.clone().unwrap_or_default();
+        let plain = gi.g.typed(Req { rule, entry: plain_entry, form, deep: false }, host);
+        let p = tr.pos;
+        let why = if p < lo || p > hi || !host.is_char_boundary(p) {
+            Some(format!("reported position {} is outside the given range {}..{}", p, lo, hi))
+        } else if plain.err.as_ref().map(|e| e.pos) != Some(p) {
+            Some(format!("error location {:?} differs from the tracker position {}", plain.err.as_ref().map(|e| e.pos), p))
+        } else {
+            let mut w = None;
+            for (_u, expected, unexpected, _s) in &tr.attempts {
+                for r in expected {
+                    if !trace.iter().any(|a| a.rule == *r && a.pos == p && !a.ok) {
+                        w = Some(format!("rule {} is listed as expected at {} but no attempt of it fails there", r, p));
+                    }
+                }
+                for r in unexpected {
+                    if !trace.iter().any(|a| a.rule == *r && a.pos == p && a.ok) {
+                        w = Some(format!("rule {} is listed as unexpected at {} but no attempt of it succeeds there", r, p));
+                    }
+                }
+            }
+            w
+        };
+        if let Some(why) = why {
+            return violation(ctx, gi, rule, host, why, json!({"form": format!("{:?}", form), "entry": format!("{:?}", entry), "report": format!("{:?}", tr)}));
+        }
+        ctx.ev.count("class.sub_input_report");
+        ctx.ev.nontrivial(hash_case(gi, rule, host, crate::common::fnv(format!("{:?}{:?}", form, entry).as_bytes())));
+    }
+    CaseResult::Ok
+}
+
 pub fn case(ctx: &mut Ctx, gi: &GInfo, rule: usize, tape: &[u8]) -> CaseResult {
+    if gi.g.forms() && tape.first().map(|b| b % 4 == 0).unwrap_or(false) {
+        let (host, form) = super::p03::host_and_form(gi, rule, &tape[1..]);
+        if form != Form::Str {
+            return check_sub(ctx, gi, rule, &host, form);
+        }
+    }
     let (input, _) = input_from(gi, rule, tape);
     check_input(ctx, gi, rule, &input)
+}
+
+pub fn replay(ctx: &mut Ctx, gi: &GInfo, rule: usize, doc: &Value) -> CaseResult {
+    let form = super::p03::parse_form(&doc["detail"]["form"]);
+    let input = doc["input"].as_str().unwrap_or("");
+    if form != Form::Str {
+        return check_sub(ctx, gi, rule, input, form);
+    }
+    check_input(ctx, gi, rule, input)
 }
 
 pub fn run(world: &World, ctx: &mut Ctx) -> Option<Value> {
